@@ -173,7 +173,64 @@ fn writer_ops(rng: &mut SplitMix, w: &Weights, cols: u32, gate: u32, cap: Option
     ops
 }
 
+/// History-centred variant for C07: items first, then a long sequence of typed edits with a
+/// quiescence checkpoint (from-scratch comparison) after every single edit.
+fn edit_history_script(rng: &mut SplitMix, thorough: bool) -> NucleoScript {
+    let columns = pick(rng, &[1u32, 1, 2, 3]);
+    let n_edits = if thorough { 10 + rng.below(20) } else { 6 + rng.below(12) };
+    let mut texts = vec![String::new(); columns as usize];
+    let mut pool: Vec<String> = Vec::new();
+    let mut plan = Vec::new();
+    for _ in 0..n_edits {
+        let c = rng.below(columns as u64) as usize;
+        edit_text(rng, &mut texts[c]);
+        haystacks_for(&texts[c], &mut pool);
+        plan.push((c, texts[c].clone()));
+    }
+    let n_items = 4 + rng.below(20);
+    let items: Vec<Vec<String>> = (0..n_items)
+        .map(|_| (0..columns).map(|_| if !pool.is_empty() && rng.below(2) == 0 { pick(rng, &pool) } else { rstr(rng, ITEM_ALPHA, 0, 6) }).collect())
+        .collect();
+    let writers = vec![vec![WOp::Extend { items, lie: Lie::Honest, panic_at: None }]];
+    let mut ui = vec![UiOp::Spawn { w: 0, h: 0, move_handle: true }];
+    if rng.below(2) == 0 {
+        ui.push(UiOp::Quiesce);
+    }
+    for (k, (c, t)) in plan.into_iter().enumerate() {
+        ui.push(UiOp::Reparse { col: c as u32, text: t });
+        // mostly settle after every edit; sometimes let two edits share a tick, or tick without waiting
+        match rng.below(8) {
+            0 => {}
+            1 => ui.push(UiOp::Tick { timeout: 0 }),
+            _ => ui.push(UiOp::Quiesce),
+        }
+        if k % 5 == 4 && rng.below(3) == 0 {
+            ui.push(UiOp::Restart { clear: rng.below(2) == 0 });
+            ui.push(UiOp::Spawn { w: 0, h: 0, move_handle: true });
+        }
+    }
+    ui.push(UiOp::Quiesce);
+    let sched = SchedCfg::generate(rng, 400, 1, 400_000);
+    NucleoScript {
+        weak: None,
+        pool_threads: pick(rng, &[1u32, 2, 3]),
+        columns,
+        capacity: Some(pick(rng, &[0u32, 32, 100])),
+        config: pick(rng, &[0u8, 0, 1, 2]),
+        case: pick(rng, &[0u8, 0, 1, 2]),
+        norm: pick(rng, &[0u8, 0, 1]),
+        event_loop: false,
+        gates: 1,
+        ui,
+        writers,
+        sched,
+    }
+}
+
 pub fn nucleo_script(rng: &mut SplitMix, focus: &str, thorough: bool) -> NucleoScript {
+    if focus == "C07seq" {
+        return edit_history_script(rng, thorough);
+    }
     let w = weights(focus);
     let event_loop = focus == "C13";
     let pool_threads = pick(rng, &[1u32, 2, 2, 3, 4]);
